@@ -6,7 +6,7 @@ import math
 import re
 
 from ..core import World, Violation, Skip
-from ..filekit import FileKit, WRITE_FAULTS, READ_FAULTS, gen_fault, gen_jump
+from ..filekit import FileKit, WRITE_FAULTS, READ_FAULTS, gen_fault, gen_alloc, gen_jump
 
 H2O_LOW = [4.19864056E+00, -2.03643410E-03, 6.52040211E-06, -5.48797062E-09, 1.77197817E-12, -3.02937267E+04,
            -8.49032208E-01]
@@ -43,7 +43,7 @@ class WorldC07(World):
               'reactions-written-in-two-orders', 'auto-and-user-ids-mixed', 'bep-transition-state', 'explicit-transition-state',
               'adsorption-reaction', 'lateral-interactions', 'unnamed-interaction', 'motz-wise-on', 'shomate-species', 'nasa9-species',
               'cti-executed', 'yaml-loaded', 'reactor-yaml', 'reactor-reused-dict', 'numpy-values', 'string-values-with-units',
-              'units-omitted', 'text-path', 'file-path', 'overwrite', 'write-after-failed-write', 'recovery-after-fault',
+              'units-omitted', 'text-path', 'file-path', 'overwrite', 'write-after-failed-write', 'recovery-after-fault', 'alloc-failure-signalled', 'alloc-failure-over-existing-file',
               'clock-jump-before-write', 'default-units', 'bep-section-judged', 'same-size-other-elements-after-a-write',
               'explicit-zero-barrier', 'non-ascii-name', 'write-with-partial-membership', 'nasa9-ranges-judged', 'reactor-initial-state',
               'capitalised-phase-names', 'phase-mechanism-links-judged')
@@ -290,6 +290,8 @@ class WorldC07(World):
         wf = sw['fault_kinds']
         to_file = rng.random() < 0.7
         fault = gen_fault(rng, wf) if to_file and wf and rng.random() < sw['fault_rate'] else None
+        if to_file and fault is None:
+            fault = gen_alloc(rng)
         if kind == 'reactor':
             return {'c': c, 'op': 'write_yaml', 'fault': fault, 'jump': jump,
                     'args': {'path': path, 'to_file': to_file, 'newline': rng.choice(['\n', '\r\n']), 'opts': self._gen_reactor(rng),
